@@ -236,8 +236,8 @@ CFG_TRUST = ['CFG._productions is taken to be a set (what every constructor call
              'lemma InBody(Rev s) = InBody s (bridge/cfgrev.lean) and closure-induction schema instances for CReach / UReach',
              'language preservation of the clean-up steps from their proved structure: textbook theorems (Hopcroft-Motwani-Ullman 7.2, 7.7, 7.13), assumed, backed by the bounded language comparison']
 mixed2('C09', [(CFGM, k) for k in ('CFG.get_reachable_symbols', 'CFG.get_unit_pairs', 'CFG.eliminate_unit_productions', 'CFG.remove_useless_symbols', 'fn.get_productions_d')]
-       + [('contracts.cfg_eps', 'CFG.remove_epsilon'), ('contracts.cfg_eps', 'fn.remove_nullable_production'), ('contracts.cfg_eps_sub', 'fn.remove_nullable_production_sub'), ('contracts.cfg_eps_ne', 'fn.remove_nullable_production_sub#no-epsilon'), ('contracts.cfg_cnf', 'CFG._get_productions_with_only_single_terminals'), ('contracts.cfg_cnf', 'CFG.is_normal_form'), ('contracts.cfg_cnf', 'Prod.is_normal_form'), ('contracts.cfg_cnf', 'CFG._get_next_free_variable'), ('contracts.cfg_cnf', 'CFG._decompose_productions')], [],
-      'Deductive, shape only, for the binarisation step _decompose_productions (with _get_next_free_variable: the variable it returns is not a variable of the grammar): every production of the result is an input production with at most two symbols or has exactly two variables as its body, and the short input productions are kept - that the chains of new variables spell the original bodies (suffix sharing) is only covered by the bounded stand-in. Deductive for is_normal_form (grammar and production): True exactly when every production is A -> B C with two variables or A -> a with one terminal. Deductive for the first step of to_normal_form, _get_productions_with_only_single_terminals: exactly the one-symbol productions unchanged, the others with every terminal replaced by its own fresh variable (injective, not a variable of the grammar whatever names it uses), and one production variable -> terminal per terminal that was replaced. Deductive for remove_epsilon: the result has exactly the productions head -> b\' where b\' is a non-empty body obtained from a body of the grammar by deleting some occurrences of nullable symbols (relation Sub, proved for the recursive helper remove_nullable_production_sub in two halves and for remove_nullable_production), for the least set of nullable symbols (proved in contracts/cfg_gen.py); no epsilon production, same start symbol. Deductive for get_reachable_symbols (= closure of "occurs in a body of"), get_unit_pairs (= unit-derivability from every variable), eliminate_unit_productions (exactly the non-unit bodies of every unit-reachable variable, and no unit production in the result), remove_useless_symbols (modular: through the contract of get_generating_symbols - proved in contracts/cfg_gen.py - the result keeps exactly the productions over generating symbols whose head is reachable, and only generating and reachable symbols) and the helper get_productions_d.',
+       + [('contracts.cfg_eps', 'CFG.remove_epsilon'), ('contracts.cfg_eps', 'fn.remove_nullable_production'), ('contracts.cfg_eps_sub', 'fn.remove_nullable_production_sub'), ('contracts.cfg_eps_ne', 'fn.remove_nullable_production_sub#no-epsilon'), ('contracts.cfg_cnf', 'CFG._get_productions_with_only_single_terminals'), ('contracts.cfg_cnf', 'CFG.is_normal_form'), ('contracts.cfg_cnf', 'Prod.is_normal_form'), ('contracts.cfg_cnf', 'CFG._get_next_free_variable'), ('contracts.cfg_cnf', 'CFG._decompose_productions'), ('contracts.cfg_nf', 'CFGNF.to_normal_form')], [],
+      'Deductive for the shape of to_normal_form as a whole (memo hit, clean-up and recursive call, or the two CNF steps): every production of the returned grammar is A -> B C with two variables or A -> a with one terminal, so is_normal_form() of the result is True, and the memo field stays None or such a grammar. Deductive, shape only, for the binarisation step _decompose_productions (with _get_next_free_variable: the variable it returns is not a variable of the grammar): every production of the result is an input production with at most two symbols or has exactly two variables as its body, and the short input productions are kept - that the chains of new variables spell the original bodies (suffix sharing) is only covered by the bounded stand-in. Deductive for is_normal_form (grammar and production): True exactly when every production is A -> B C with two variables or A -> a with one terminal. Deductive for the first step of to_normal_form, _get_productions_with_only_single_terminals: exactly the one-symbol productions unchanged, the others with every terminal replaced by its own fresh variable (injective, not a variable of the grammar whatever names it uses), and one production variable -> terminal per terminal that was replaced. Deductive for remove_epsilon: the result has exactly the productions head -> b\' where b\' is a non-empty body obtained from a body of the grammar by deleting some occurrences of nullable symbols (relation Sub, proved for the recursive helper remove_nullable_production_sub in two halves and for remove_nullable_production), for the least set of nullable symbols (proved in contracts/cfg_gen.py); no epsilon production, same start symbol. Deductive for get_reachable_symbols (= closure of "occurs in a body of"), get_unit_pairs (= unit-derivability from every variable), eliminate_unit_productions (exactly the non-unit bodies of every unit-reachable variable, and no unit production in the result), remove_useless_symbols (modular: through the contract of get_generating_symbols - proved in contracts/cfg_gen.py - the result keeps exactly the productions over generating symbols whose head is reachable, and only generating and reachable symbols) and the helper get_productions_d.',
       'contract-based deductive verification (pyvc + z3) of the structural CFG clean-up functions; bounded run-time contract checking for nullable/generating counters, epsilon removal, terminal lifting, binarisation and for the language statements', CFG_TRUST + ['get_generating_symbols is proved in contracts/cfg_gen.py (worklist with counters, against the least-set spec GNS); the table builder CFG._set_impacts_and_remaining_lists is proved there too (one counter cell per non-empty production initialised with the body length, one _impacts entry per body position; ghost fields pr / cell relate cells and productions), and the worklist is proved to give every counter back; assumed: the List.countP / List.count / List.take facts proved in bridge/count.lean (NP, Occ, OccPre), the induction principle of the least set (one instance), Python lists of ints viewed as (length, array) with non-negative indices only, and that a freshly constructed grammar has its memo fields and tables set to None (the representation invariant then holds for every object reachable through the proved functions)'])
 mixed2('C10', [('contracts.cfg', 'CFG.reverse'), ('contracts.cfg', 'CFG.__invert__')] + [('contracts.cfg_subst', k) for k in ('CFG.substitute', 'CFG.union', 'CFG.concatenate', 'CFG.get_closure', 'CFG.get_positive_closure', 'CFG.__or__', 'CFG.__add__')], ['bridge/cfgrev.lean'],
       'Deductive for CFG.reverse: the result has exactly the productions with reversed bodies, same symbols and start symbol (all grammars); Mathlib ContextFreeGrammar.language_reverse gives the mirror language. '
